@@ -278,6 +278,11 @@ func checkC13(e *Engine, r *Report) {
 				}
 			}
 		})
+		var knownH Assumption
+		if _, v, kn := e.eventContainer(fn); v != nil {
+			lookedUp = append(lookedUp, v)
+			knownH = kn
+		}
 		records := func(in ssa.Instruction) bool {
 			c, ok := in.(ssa.CallInstruction)
 			if !ok || callObj(c.Common()) == nil || callObj(c.Common()).Name() != "UpdateState" {
@@ -295,6 +300,11 @@ func checkC13(e *Engine, r *Report) {
 			return false
 		}
 		found := func(cond ssa.Value) (bool, bool) { // the container is known
+			if knownH != nil {
+				if k, v := knownH(cond); k {
+					return k, v
+				}
+			}
 			if ex, ok := unspill(cond).(*ssa.Extract); ok && ex.Index == 1 {
 				if c, ok := ex.Tuple.(ssa.CallInstruction); ok && callObj(c.Common()) != nil && callObj(c.Common()).Name() == "LookupContainer" {
 					return true, true
